@@ -727,6 +727,21 @@ pool_case(P.Quire, "lmbda-0.5-linear",
           {"classes": CLASSES, "lmbda": 0.5, "metric": "linear"},
           modes=MAPPED, lazy_none=("metric_dict",))
 
+
+
+def pool_kernel_data(seed):
+    """`pool_clf_data` with X replaced by its (float64, C-contiguous) RBF kernel matrix: `metric='precomputed'`."""
+    from sklearn.metrics.pairwise import rbf_kernel
+
+    d = pool_clf_data(seed)
+    d["X"] = np.ascontiguousarray(rbf_kernel(d["X"], d["X"], gamma=0.5), dtype=float)
+    return d
+
+
+pool_case(P.Quire, "precomputed-kernel",
+          {"classes": CLASSES, "metric": "precomputed"},
+          data=pool_kernel_data, modes=MAPPED, lazy_none=("metric_dict",))
+
 # FourDs --------------------------------------------------------------------
 pool_case(P.FourDs, "default", models=M(clf=mmc_gmm), lazy_none=("lmbda",))
 pool_case(P.FourDs, "lmbda-0.5", {"lmbda": 0.5}, models=M(clf=mmc_gmm))
